@@ -200,18 +200,156 @@ def _d2(chk, fb):
                     for dd in d["decls"]:
                         if dd["name"] == idx and dd.get("init") is not None and render(dd["init"]).endswith("second"):
                             ok = True
-    if ok:
+    direct = any(render(sw.obj(n)).endswith(("->second]", ".second]")) for n in ws)
+    if ok or direct:
         chk.proved("D2", sw.key, "switch-same-edge-id", sw.loc(), "edge table entry rewritten under the id read from the existing relation")
+    elif ws:
+        chk.unknown("D2", sw.key, "switch-same-edge-id", sw.loc(ws[0]), "the index '%s' of the rewritten edge-table entry is not traced to the existing relation" % render(sw.obj(ws[0]))[:60])
     else:
         chk.refuted("D2", sw.key, "switch-same-edge-id", sw.loc(), "switchNodes no longer rewrites the edge table under the id of the existing edge")
+
+
+def _table_writes(f):
+    """writes of f to the node table and the edge table, with the row resolved to the node it belongs to:
+    ('fwd'|'bwd', row node text|None, key text, edge text, node)  and  ('edge', edge text, first, second, node)"""
+    import re
+    base, derived, nodevars = {}, {}, {}
+    cfg = f.cfg
+    for n in f.all_nodes():
+        if n["k"] == "DeclStmt":
+            for d in n["decls"]:
+                if d.get("init") is not None:
+                    m = re.match(r"^nodeStructure_\.find\((\w+)\)$", render(d["init"]))
+                    if m:
+                        base[d["name"]] = m.group(1)
+        if is_call(n) and n["callee"]["name"] == "operator=" and "obj" in n and strip(f.obj(n))["k"] == "DeclRefExpr" and f.args(n):
+            o, a = strip(f.obj(n)), strip(f.args(n)[0])
+            m = re.match(r"^nodeStructure_\.find\((\w+)\)$", render(a))
+            if m:
+                derived.setdefault(o["decl"]["name"], []).append((cfg.stmt_block(n), ("node", m.group(1))))
+            elif a["k"] == "DeclRefExpr":
+                derived.setdefault(o["decl"]["name"], []).append((cfg.stmt_block(n), ("row", a["decl"]["name"])))
+        if n["k"] == "BinaryOperator" and n.get("op") == "=":
+            l, r = strip(kids(n)[0]), strip(kids(n)[1])
+            if l["k"] == "DeclRefExpr" and l["decl"]["kind"] == "local" and r["k"] == "DeclRefExpr":
+                nodevars.setdefault(l["decl"]["name"], []).append((cfg.stmt_block(n), r["decl"]["name"]))
+
+    def node_of(row):
+        if row in base and row not in derived:
+            return base[row]
+        if row in derived:
+            asg = []
+            for blk, (kind, x) in derived[row]:
+                nd = x if kind == "node" else (base.get(x) if x not in derived else None)
+                if nd is None:
+                    return None
+                asg.append((blk, nd))
+            if len({nd for _, nd in asg}) == 1 and row not in base:
+                return asg[0][1]
+            # a node variable assigned the matching node in exactly the same blocks names the row
+            cands = [v for v, a in nodevars.items() if sorted(a) == sorted(asg)]
+            return cands[0] if len(cands) == 1 else None
+        return None
+    out = []
+    pat = re.compile(r"^(?:->)?(?:(\w+)|nodeStructure_\.find\((\w+)\))->second\.(first|second)$")
+    pat2 = re.compile(r"^nodeStructure_\[(\w+)\]\.(first|second)$")
+
+    def table(t):
+        m = pat.match(t)
+        if m:
+            return ("fwd" if m.group(3) == "first" else "bwd"), (m.group(2) if m.group(2) else node_of(m.group(1)))
+        m = pat2.match(t)
+        if m:
+            return ("fwd" if m.group(2) == "first" else "bwd"), m.group(1)
+        return None
+    for n in f.all_nodes():
+        if n["k"] == "BinaryOperator" and n.get("op") == "=":
+            l = strip(kids(n)[0])
+            if is_call(l) and l.get("op") == "[]" and "obj" in l:
+                tb = table(render(f.obj(l)))
+                if tb:
+                    out.append((tb[0], tb[1], render(f.args(l)[0]), render(kids(n)[1]), n))
+        if is_call(n) and n["callee"]["name"] in ("insert", "emplace") and "obj" in n:
+            tb = table(render(f.obj(n)))
+            if tb and f.args(n):
+                a = strip(f.args(n)[0])
+                parts = [render(x) for x in (f.args(a) if is_call(a) else f.args(n))]
+                if len(parts) == 2:
+                    out.append((tb[0], tb[1], parts[0], parts[1], n))
+        if is_call(n) and n["callee"]["name"] == "operator=" and "obj" in n:
+            o = strip(f.obj(n))
+            if is_call(o) and o.get("op") == "[]" and render(f.obj(o)) == "edgeStructure_" and f.args(n):
+                a = strip(f.args(n)[0])
+                parts = [render(x) for x in f.args(a)] if is_call(a) else []
+                out.append(("edge", render(f.args(o)[0]), parts[0] if len(parts) == 2 else None, parts[1] if len(parts) == 2 else None, n))
+    return out
+
+
+def _d3(chk, fb):
+    """orientation agreement between the two tables of GlobalGraph"""
+    ln, le = fb.q1(G + "::linkInNodeStructure_"), fb.q1(G + "::linkInEdgeStructure_")
+    wn, we = _table_writes(ln), [w for w in _table_writes(le) if w[0] == "edge"]
+    pn = [p["name"] for p in ln.params]
+    pe = [p["name"] for p in le.params]
+    conv = (len(pn) == 3 and len(pe) == 3 and ("fwd", pn[0], pn[1], pn[2]) in {w[:4] for w in wn} and ("bwd", pn[1], pn[0], pn[2]) in {w[:4] for w in wn}
+            and any(w[1] == pe[2] and w[2] == pe[0] and w[3] == pe[1] for w in we))
+    n = 0
+    for f in fb.concrete_fns():
+        if (f.cls or "") != G or f.body is None or f.key in (ln.key, le.key):
+            continue
+        ws = _table_writes(f)
+        for w in [x for x in ws if x[0] == "edge"]:
+            n += 1
+            _, e, x, y, node = w
+            fw = {(a, b) for t, a, b, ee, _ in [z for z in ws if z[0] != "edge"] if t == "fwd" and ee == e}
+            bw = {(a, b) for t, a, b, ee, _ in [z for z in ws if z[0] != "edge"] if t == "bwd" and ee == e}
+            con = "orientation:edgeStructure_[%s]" % e
+            if not conv:
+                chk.unknown("D3", f.key, con, f.loc(node), "the link helpers no longer show the convention edge (a,b) <-> forward[a][b], backward[b][a]")
+            elif x is None or not (fw or bw):
+                chk.unknown("D3", f.key, con, f.loc(node), "the node-table writes of this edge are not in a form this rule reads")
+            elif (x, y) in fw and (y, x) in bw:
+                chk.proved("D3", f.key, con, f.loc(node), "edge table gets (%s, %s); node table gets forward[%s][%s] and backward[%s][%s] for the same edge" % (x, y, x, y, y, x))
+            elif (y, x) in fw or (x, y) in bw:
+                chk.refuted("D3", f.key, con, f.loc(node),
+                            "the edge table records edge %s as (%s, %s) while the node table written by the same function holds it as forward[%s][%s] / backward[%s][%s]: top and bottom of the edge disagree between "
+                            "edgeStructure_ and nodeStructure_ (getTop/getBottom answer against getOutgoingNeighbors)" % (e, x, y, y, x, x, y),
+                            witness={"history": "link(a,b); switchNodes(a,b); compare getTop(edge) with the outgoing neighbours of its nodes"})
+            else:
+                chk.unknown("D3", f.key, con, f.loc(node), "rows of the node-table writes could not be tied to (%s, %s)" % (x, y))
+    chk.floor("D3", "direct edge-table writers beside the link helper", n, 1)
+    # D4: the id allocators are not counts
+    m = 0
+    for f in fb.concrete_fns():
+        if not (f.cls or "").startswith(("bpp::GlobalGraph", "bpp::TreeGraphImpl", "bpp::DAGraphImpl", "bpp::AssociationGraphImplObserver")) or f.body is None:
+            continue
+        for x in f.all_nodes():
+            if x["k"] == "MemberExpr" and x["member"].get("this") and x["member"]["name"] in ("highestNodeID_", "highestEdgeID_"):
+                m += 1
+                par = f.parent.get(x["id"])
+                while par is not None and par["k"] in ("ImplicitCastExpr", "ParenExpr"):
+                    par = f.parent.get(par["id"])
+                if par is not None and par["k"] == "BinaryOperator" and par.get("op") in ("==", "!=", "<", "<=", ">", ">="):
+                    other = [k_ for k_ in kids(par) if not any(y is x for y in walk(k_))]
+                    ot = render(other[0]) if other else ""
+                    if ".size()" in ot or "getNumberOf" in ot:
+                        chk.refuted("D4", f.key, "allocator-as-count:" + x["member"]["name"], f.loc(par),
+                                    "%s (ids ever issued) is compared with the count '%s': after any deletion the two differ although the structure is intact" % (x["member"]["name"], ot),
+                                    witness={"history": "create three nodes, delete one, ask the predicate"})
+                        continue
+                chk.proved("D4", f.key, "allocator-use:" + x["member"]["name"], f.loc(x), "allocation / copy of the id counter")
+    chk.floor("D4", "uses of the id allocators", m, 4)
 
 
 def run(chk, fb, tier):
     chk.rule("D1", "every dependency write of the cached validity predicate made by a public entry point (directly or in a callee) is followed by a reachable topologyHasChanged_(); "
                    "the derived invalidator overrides the base virtual and clears isValid_; isValid_ becomes true only from isTree()/isDA()")
     chk.rule("D2", "nothing reachable from rootAt on the graph itself erases from edgeStructure_, calls notifyDeletedEdges or increments highestEdgeID_; switchNodes rewrites the same edge id")
+    chk.rule("D3", "a GlobalGraph member that writes edgeStructure_[e] = (x, y) itself writes forward[x][y] = e and backward[y][x] = e in nodeStructure_ (the convention of the link helpers), never the reverse")
+    chk.rule("D4", "highestNodeID_/highestEdgeID_ count ids ever issued: they are not compared with a container size or element count")
     _d1(chk, fb)
     _d2(chk, fb)
+    _d3(chk, fb)
     if SKIPPED:
         chk.note("members of AssociationTreeGraphImplObserver not instantiable (latent compile errors in the header), skipped: %s" % SKIPPED)
     chk.assume("copy construction / assignment copy the flag together with the structure (implicit member-wise copy of TreeGraphImpl/DAGraphImpl)")
